@@ -139,3 +139,103 @@ func (p *Prop) TierNote(tier string) string {
 	}
 	return "quick: all rules of the property on linux/amd64"
 }
+
+// region returns f together with its private helpers: declared, unexported
+// functions of the same package that are only ever called (never used as a
+// value) and all of whose call sites lie inside the region.  Code extracted
+// from an anchor function into such helpers still belongs to the anchor as far
+// as rules that search the anchor's body are concerned.  The order is f first,
+// then helpers in source order.
+func (c *Ctx) region(f *core.Func) []*core.Func {
+	if f == nil {
+		return nil
+	}
+	key := "region:" + f.Name
+	if v, ok := c.cache[key]; ok {
+		return v.([]*core.Func)
+	}
+	in := map[*core.Func]bool{f: true}
+	for _, l := range f.Lits {
+		in[l] = true
+	}
+	cg := c.P.CG()
+	for changed := true; changed; {
+		changed = false
+		// candidates: callees of region members
+		var cands []*core.Func
+		for g := range in {
+			for h := range cg.Edges[g] {
+				if !in[h] && h.Decl != nil && h.Pkg == f.Pkg && h.Obj != nil && !h.Obj.Exported() && !h.Generated {
+					cands = append(cands, h)
+				}
+			}
+		}
+		for _, h := range cands {
+			if in[h] {
+				continue
+			}
+			calls, complete := c.callSitesOf(h)
+			if !complete || len(calls) == 0 {
+				continue
+			}
+			all := true
+			for _, cs := range calls {
+				if !in[cs.in] && !in[cs.in.Root()] {
+					all = false
+				}
+			}
+			if all {
+				in[h] = true
+				for _, l := range h.Lits {
+					in[l] = true
+				}
+				changed = true
+			}
+		}
+	}
+	out := []*core.Func{f}
+	var rest []*core.Func
+	for g := range in {
+		if g != f && g.Lit == nil {
+			rest = append(rest, g)
+		}
+	}
+	sort.Slice(rest, func(i, j int) bool { return rest[i].Pos() < rest[j].Pos() })
+	out = append(out, rest...)
+	c.cache[key] = out
+	return out
+}
+
+// regionNodes visits the nodes of f and of its private helpers (function
+// literals included).
+func (c *Ctx) regionNodes(f *core.Func, visit func(g *core.Func, n ast.Node) bool) {
+	var walk func(g *core.Func)
+	walk = func(g *core.Func) {
+		g.OwnNodes(func(n ast.Node) bool { return visit(g, n) })
+		for _, l := range g.Lits {
+			walk(l)
+		}
+	}
+	for _, g := range c.region(f) {
+		walk(g)
+	}
+}
+
+// inRegion reports whether g (or the declared function it is a literal of)
+// belongs to the region of the function named anchor.
+func (c *Ctx) inRegion(anchor string, g *core.Func) bool {
+	if i := strings.Index(anchor, "$"); i >= 0 {
+		anchor = anchor[:i]
+	}
+	a := c.fn(anchor)
+	if a == nil {
+		return false
+	}
+	root := g.Root()
+	for _, h := range c.region(a) {
+		if h == root {
+			return true
+		}
+	}
+	return false
+}
